@@ -245,3 +245,12 @@ func HasCover(label string) bool {
 // ThreadID identifies the calling harness thread (0 = the harness's main thread). Natively
 // it is always 0.
 func ThreadID() int { return 0 }
+
+// Choice returns a solver-chosen value in [0,n); the engine concretises it by forking.
+func Choice(name string, n int) int {
+	v := int(get(name))
+	if v < 0 || v >= n {
+		return 0
+	}
+	return v
+}
